@@ -271,3 +271,52 @@ def s_midshadow(g, depth):
          "    print([fs[0](), fs[2](), fs[4](), %s]);" % nm, "}", "%s();" % o]
     g.declare(o, "clfn:0", const=True)
     return L
+
+
+def finally_capture_program(rng):
+    """variables declared before, inside and around a try statement, captured by closures before the block is left by
+    return / fall-through / exception / break-free loop exit, and then written and read by the finally block and by
+    the closures in either order: while the finally block runs the function is still live, so both see one variable"""
+    r = rng
+    L = ["var log = [];"]
+    calls = []
+    for k in range(r.range(2, 4)):
+        exit_ = r.choice(["return", "return", "fall", "throw", "return-nested"])
+        nparam = r.chance(50)
+        decl_before = r.range(1, 3)
+        body = []
+        names = (["p"] if nparam else []) + ["x%d" % i for i in range(decl_before)]
+        for i in range(decl_before):
+            body.append("var x%d = %d;" % (i, (k + 1) * 10 + i))
+        tgt = r.choice(names)
+        body.append("var get = || [%s];" % ", ".join(names))
+        body.append("var set = |v| { %s = v; return %s; };" % (tgt, tgt))
+        body.append("var bump = || { %s return %s; };" % (" ".join("%s = %s + 1;" % (n, n) for n in names), names[0]))
+        tb = ["var inner = \"in%d\";" % k, "var geti = || inner;", "%s = %s + 1;" % (tgt, tgt)]
+        if exit_ == "return":
+            tb.append("return [get, set, bump, geti];")
+        elif exit_ == "return-nested":
+            tb.append("if true { var deeper = [%s]; var getd = || deeper; return [get, set, bump, getd]; }" % tgt)
+        elif exit_ == "throw":
+            tb.append("throw [get, set, bump, geti];")
+        fin = []
+        for _ in range(r.range(1, 3)):
+            fin.append(r.choice(["%s = %s + 100;" % (tgt, tgt), "log.push(get());", "set(%d); log.push(%s);" % (500 + k, tgt), "bump(); log.push(get());",
+                                 "log.push(%s);" % tgt, "%s = %s * 2;" % (tgt, tgt)]))
+        body.append("try {")
+        body += ["    " + t for t in tb]
+        body.append("} finally {")
+        body += ["    " + t for t in fin]
+        body.append("}")
+        body.append("%s = %d;" % (tgt, 1000 + k))
+        body.append("return [get, set, bump, || \"fell\"];")
+        L.append("fn f%d(%s) {" % (k, "p" if nparam else ""))
+        L += ["    " + b for b in body]
+        L.append("}")
+        arg = "7" if nparam else ""
+        if exit_ == "throw":
+            calls.append("var r%d = nil; try { f%d(%s); } catch e { r%d = e; }" % (k, k, arg, k))
+        else:
+            calls.append("var r%d = f%d(%s);" % (k, k, arg))
+        calls.append("print(r%d[0]()); print(r%d[3]()); print(r%d[2]()); print(r%d[0]()); print(r%d[1](9%d)); print(r%d[0]()); print(log);" % (k, k, k, k, k, k, k))
+    return "\n".join(L + calls) + "\n"
